@@ -1,4 +1,4 @@
-HOOK_COMMITS = ["d41ea61", "4c86597"]
+HOOK_COMMITS = ["d41ea61", "4c86597", "b4eb0a9"]
 NOTES = ("Every check is `bin/check <ID>`: TLC model-checks the focused configuration(s) of the implementation-shaped TLA+ model with the "
          "observer's property clauses as invariant, the model's state graph is exported as schedules, the Rust harness replays them (and "
          "seeded-random schedules) on the real code, and TLC validates the recorded traces against the observer (verdict) and against the "
